@@ -655,7 +655,7 @@ func (tx *Tx) findRangeOnDisk(fID, rootOff int64, start, end, newStart, newEnd [
 
 func (tx *Tx) prefixScanByHintBPTSparseIdx(bucket string, prefix []byte, offsetNum int, limitNum int) (es Entries, off int, err error) {
 	newPrefix := getNewKey(bucket, prefix)
-	records, voff, err := tx.db.ActiveBPTreeIdx.PrefixScan(newPrefix, offsetNum, limitNum)
+	records, voff, err := tx.db.ActiveBPTreeIdx.prefixScan(newPrefix, offsetNum, limitNum, true)
 	if err == nil && records != nil {
 		for _, r := range records {
 			path := tx.db.getDataPath(r.H.fileID)
@@ -699,7 +699,7 @@ func (tx *Tx) prefixScanByHintBPTSparseIdx(bucket string, prefix []byte, offsetN
 
 func (tx *Tx) prefixSearchScanByHintBPTSparseIdx(bucket string, prefix []byte, reg string, offsetNum int, limitNum int) (es Entries, off int, err error) {
 	newPrefix := getNewKey(bucket, prefix)
-	records, voff, err := tx.db.ActiveBPTreeIdx.PrefixSearchScan(newPrefix, reg, offsetNum, limitNum)
+	records, voff, err := tx.db.ActiveBPTreeIdx.prefixSearchScan(newPrefix, reg, offsetNum, limitNum, true)
 	if err == nil && records != nil {
 		for _, r := range records {
 			path := tx.db.getDataPath(r.H.fileID)
